@@ -344,39 +344,30 @@ def simplifyParts (num den : List Expr) : Except Err Expr :=
   | [], _ :: _ => Expr.div .one (productSafe dd)
   | _ :: _, _ :: _ => mkFrac (productSafe nn) (productSafe dd)
 
-/-- `Fraction(n, d).simplify()`; `fuel` bounds the `flip().simplify()` recursion (each step strips one Fraction
-constructor off the denominator, so `sizeOf d` is enough) -/
-def fracSimplifyAux : Nat → Expr → Expr → Except Err Expr
-  | fuel, n, d =>
-    if d.isOne then pure n
-    else if n.isZero then pure n
+/-- the part of `Fraction(n, d).simplify()` after the `One` / `Zero` / flip checks: equal parts, products -/
+def fracSimplifyTail (n d : Expr) : Except Err Expr :=
+  if n.eqb d then pure .one
+  else
+    match n, d with
+    | .prod ns, .prod ds => simplifyParts ns ds
+    | .prod ns, _ => simplifyParts ns [d]
+    | _, .prod ds => simplifyParts [n] ds
+    | _, _ => pure (.frac n d)
+
+/-- `Fraction(n, d).simplify()`.  The only recursion is `self.denominator.flip().simplify()` for a numerator `One()` and a
+denominator that is a Fraction: structural in the denominator. -/
+def Expr.fracSimplify : Expr → Expr → Except Err Expr
+  | n, .one => pure n
+  | n, .frac dn dd =>
+    if n.isZero then pure n
     else if n.isOne then
-      match d, fuel with
-      | .frac dn dd, fuel + 1 =>
-          -- self.denominator.flip() constructs Fraction(dd, dn) first
-          if dn.isZero then throw zeroDivision else fracSimplifyAux fuel dd dn
-      | .frac _ _, 0 => throw (.internal "fuel")
-      | _, _ => pure (.frac n d)
-    else if n.eqb d then pure .one
-    else
-      match n, d with
-      | .prod ns, .prod ds => simplifyParts ns ds
-      | .prod ns, _ => simplifyParts ns [d]
-      | _, .prod ds => simplifyParts [n] ds
-      | _, _ => pure (.frac n d)
-
-mutual
-def Expr.depth : Expr → Nat
-  | .prod fs => Expr.depthList fs + 1
-  | .sum e _ => Expr.depth e + 1
-  | .frac n d => Expr.depth n + Expr.depth d + 1
-  | _ => 1
-def Expr.depthList : List Expr → Nat
-  | [] => 0
-  | e :: es => Expr.depth e + Expr.depthList es
-end
-
-def Expr.fracSimplify (n d : Expr) : Except Err Expr := fracSimplifyAux (Expr.depth d + 1) n d
+      -- self.denominator.flip() constructs Fraction(dd, dn) first
+      if dn.isZero then throw zeroDivision else Expr.fracSimplify dd dn
+    else fracSimplifyTail n (.frac dn dd)
+  | n, d =>
+    if n.isZero then pure n
+    else if n.isOne then pure (.frac n d)
+    else fracSimplifyTail n d
 
 /-- `.simplify()` on an arbitrary expression object: defined for Sum and Fraction only -/
 def Expr.simplify : Expr → Except Err Expr
